@@ -737,8 +737,10 @@ class ParallelProcess(Process):
             Tuple[str, Optional[tuple], Optional[dict]]] = None
         # The schema is only ever assigned through this wrapper, so the
         # parent can answer reads itself, also while the child is busy.
-        self._schema_copy: Optional[Schema] = None
-        self._schema_known = False
+        # A process that is wrapped after a store has generated it (one
+        # created at run time) brings the schema it was given along.
+        self._schema_copy: Optional[Schema] = process.schema
+        self._schema_known = process.schema is not None
         # Result collected by end() from a command that was still in
         # flight, kept for a caller that is about to ask for it.
         self._result_at_end: Any = None
